@@ -206,6 +206,22 @@ def check_contact(ctx):
                         ctx.violate(f"contact TFM ({kind}) of {np.dtype(idt).name} data is not the image of the same numbers held as float64 "
                                     f"(result dtype {np.asarray(ri).dtype}, max difference {np.abs(np.asarray(ri, dtype=complex) - np.asarray(r64, dtype=complex)).max():.3g})",
                                     {**cj, "capture": kind, "dtype": np.dtype(idt).name}, {"kind": "contact_integer_data"})
+        if np.isrealobj(G) and np.all(G == np.round(G)) and np.abs(G).max() < 3000:
+            # integer acquisition data together with an aperture mask of ones held as integers
+            mask = tfm.TxRxAmplitudes(np.ones((grid.numpoints, numel), dtype=np.int64), np.ones((grid.numpoints, numel), dtype=np.int64))
+            for kind in ("fmc", "hmc"):
+                r64, pairs, fr64 = res[kind]
+                fri = fixtures.make_frame(np.asarray(fr64.timetraces).real.astype(np.int16), t0, dt, [i for i, _ in pairs], [j for _, j in pairs], probe, None)
+                try:
+                    rm = tfm.contact_tfm(fri, grid, v, amplitudes=mask, interpolation=interp, fillvalue=fill).res
+                except Exception as e:
+                    ctx.violate(f"contact TFM of int16 data with an integer unit mask raised {type(e).__name__}: {str(e)[:80]}", {**cj, "capture": kind}, {"kind": "contact_integer_mask"})
+                    continue
+                ctx.count("contact:integer_data_integer_mask")
+                ex_, ok_ = lookup_conditioning(lookup, lookup, pairs, t0, dt, fr64.timetraces, interp, wmax=2.0)
+                if not close_c(np.asarray(rm, dtype=complex), np.asarray(r64, dtype=complex), np.abs(G).max() * 2 + abs(fill), len(pairs), ex_, ok_):
+                    ctx.violate(f"contact TFM ({kind}) of int16 data with a unit aperture mask held as integers is not the image of the same numbers as floats "
+                                f"(result dtype {np.asarray(rm).dtype})", {**cj, "capture": kind}, {"kind": "contact_integer_mask"})
         ctx.case(("contact", probe.locations.coords.tobytes(), grid.to_1d_points().coords.tobytes(), v, interp), numel >= 2,
                  sample={"op": "contact_tfm", "numel": numel, "gridpoints": grid.numpoints, "interp": interp} if numel >= 2 else None)
         ctx.count("contact:" + interp)
